@@ -249,6 +249,11 @@ var probes = []string{
 	"输出（取随机数） >= 0",
 	"输出显示",
 	"输出异常",
+	// declarations that occupy the first name slots of a program: a type with its constructor, a
+	// method held by a variable and called through it, a library function held by a variable
+	"定义点：\n    其横 = 0\n如何新建点？\n    输入甲\n    其横 = 甲\n输出（新建点：7）之横",
+	"如何首？\n    输出41\n令持 = 首\n输出（持） + 1",
+	"定义甲型：\n    其一 = 1\n定义乙型：\n    其二 = 2\n如何新建乙型？\n    输入值\n    其二 = 值\n如何新建甲型？\n    输入值\n    其一 = 值\n输出【（新建甲型：3）之一，（新建乙型：4）之二】",
 	// values handed in by the host
 	"输入入表、入典、入数\n输出【入表，入典，入数】",
 	// literals denote their value in every execution
